@@ -2,8 +2,8 @@
 """Regenerates /verif/MANIFEST.json from the table below (kept here so it stays consistent)."""
 import json, os, subprocess
 ROOT = os.path.dirname(os.path.dirname(os.path.abspath(__file__)))
-HOOK_COMMITS = ["33257d2", "7614da3", "5d248d3"]
-TRUST = "Trusted base: the simulator itself (driver, scripted handlers, recording sink, oracles); encoding_rs; rustc. The whole lol_html crate runs as shipped (release profile with debug-assertions and overflow-checks on, feature-gated hooks are read-only)."
+HOOK_COMMITS = ["33257d2", "7614da3", "5d248d3", "21b0be5"]
+TRUST = "Trusted base: the simulator itself (driver, scripted handlers, recording sink, oracles); encoding_rs; rustc. The whole lol_html crate runs as shipped (release profile with debug-assertions and overflow-checks on, feature-gated hooks are read-only probes/traces, plus two tuning knobs of the text decoder — buffer length, fast path off — that are used only by scenarios that ask for them)."
 CHECKS = {
  "C02": dict(level="exploration", tech="deterministic simulation: every schedule compared with the single-write reference execution (relational oracle over histories)",
    text="Seeded exploration of scenarios (observer and deterministic mutating handler sets) x delivery schedules; each execution's final bytes, result and handler-visible event sequence (text chunks merged per node) are compared with the single-write execution of the same scenario and with rewrite_str; all 1-cut (2-cut for small documents) splits of each explored document are enumerated.",
